@@ -14,6 +14,7 @@ CONSTANTS
   OverwriteTags <- None_
   StickyKwargs = FALSE
   LazySetitemLost = FALSE
+  RollShortcut = FALSE
   SharedHandle = FALSE
 VIEW View
 INVARIANT TypeOK
